@@ -630,10 +630,7 @@ def run(repo, tier):
     from .. import layoutrules as _LR
     for name_ in ('resolve_strings', 'resolve_sequences', 'transform_shorthand_packs', 'resolve_packs', 'resolve_include_bytes'):
         if name_ in facts.funcs:
-            try:
-                _LR.check_shared_buffers(rep, facts, _LR.pass_analysis(facts, name_), 'R10.6.own-payload')
-            except AnalysisError as e:
-                rep.undecided(str(e))
+            _LR.check_shared_buffers(rep, facts, facts.funcs[name_], 'R10.6.own-payload')
     rep.floor('width table rows', 9)
     rep.floor('sign/format cases', 18)
     rep.floor('pack sites', 1)
